@@ -10,7 +10,7 @@ import ast
 import json
 
 from ..model import calls_in, call_name, is_stub, real_body, u
-from ..nf import NF, Opaque, attr, ctor_args, find_calls, show, sym
+from ..nf import NF, Opaque, attr, const, ctor_args, find_calls, show, sym
 from ..cfg import CFG, EXIT, RAISE
 
 TYS = "hugr.tys"
@@ -43,6 +43,8 @@ def r1_exhaustive(ctx) -> None:
 
 
 def r2_table(ctx, nf) -> None:
+    """stated over the path summaries of the canonical bodies (hv/canon.py, hv/paths.py): each returning path's value, with
+    locals substituted and idioms normalised, is compared as a normal form with the table entry"""
     mod = ctx.program.module(TYS)
     for cname, expr in BOUND_TABLE.items():
         c = mod.classes.get(cname)
@@ -50,13 +52,18 @@ def r2_table(ctx, nf) -> None:
             ctx.broken(f"anchor vanished: hugr.tys.{cname}")
         k, m = c.find_method("type_bound")
         try:
-            alts = nf.method_alts(c, "type_bound")
             want, _ = nf.expr_nf(expr, c)
+            alts = []
+            for p in ctx.paths(f"{k.qualname}.type_bound"):
+                if p.kind == "return":
+                    alts.append((p.describe(), nf.expr_nf(p.value_text() or "None", c)[0]))
+                elif p.kind != "raise":
+                    alts.append((p.describe(), const(None)))
         except Opaque as e:
             ctx.broken(f"hugr.tys.{cname}.type_bound not normalisable: {e}")
-        bad = [(gd, t) for gd, t, _ in alts if t != want]
-        ctx.check(not bad, "C07.R2", f"hugr.tys.{cname}.type_bound", k.module.path, m.lineno,
-                  f"the bound of {cname} must be {expr}" + (f"; on the path [{bad[0][0]}] it is {show(bad[0][1])}" if bad and bad[0][0] else ""), m,
+        bad = [(gd, t) for gd, t in alts if t != want]
+        ctx.check(bool(alts) and not bad, "C07.R2", f"hugr.tys.{cname}.type_bound", k.module.path, m.lineno,
+                  f"the bound of {cname} must be {expr}" + (f"; on the path {bad[0][0][:120]} it is {show(bad[0][1])}" if bad else ""), m,
                   expected=show(want), found=show(bad[0][1]) if bad else "", detail=show(want))
     # sugar sums inherit Sum.type_bound (checked as an override rule under C05.R4 too)
     sum_cls = mod.classes["Sum"]
@@ -68,26 +75,28 @@ def r2_table(ctx, nf) -> None:
     m = c.methods.get("type_bound")
     if m is None:
         ctx.broken("anchor vanished: hugr.tys.ExtType.type_bound")
-    paths = nf.paths(c, "type_bound")
     s = sym("self")
     bound = attr(attr(s, "type_def"), "bound")
     arms = {}
-    fall = False
-    for guards, outcome, term, node, env in paths:
-        pats = [g[0][2] for g in guards if g[0][0] == "pattern" and g[1]]
-        subj = [g[0][1] for g in guards if g[0][0] == "pattern"]
-        if outcome == "return":
-            arms[pats[-1].split("(")[0] if pats else "?"] = (term, subj[0] if subj else None)
-        elif outcome == "fallthrough":
-            fall = True
+    stray = ""
+    for p in ctx.paths("hugr.tys.ExtType.type_bound"):
+        taken = [u(t.args[1]).split(".")[-1] for t, k_ in p.tests if k_ and isinstance(t, ast.Call) and u(t.func) == "isinstance"
+                 and len(t.args) == 2 and u(t.args[0]) == "self.type_def.bound"]
+        if p.kind == "return" and taken:
+            try:
+                arms[taken[-1]] = nf.expr_nf(p.value_text() or "None", c)[0]
+            except Opaque as e:
+                ctx.broken(f"hugr.tys.ExtType.type_bound not normalisable: {e}")
+        elif p.kind == "return" and p.value_text() not in ("", "None"):
+            stray = p.describe()
     exp_explicit = attr(bound, "bound")
     want_params, _ = nf.expr_nf(
         "TypeBound.join(*[self.args[i].ty.type_bound() for i in self.type_def.bound.indices if isinstance(self.args[i], TypeTypeArg)])", c)
-    ok_e = "ExplicitBound" in arms and arms["ExplicitBound"][0] == exp_explicit and arms["ExplicitBound"][1] == bound
+    ok_e = arms.get("ExplicitBound") == exp_explicit and not stray
     ctx.check(ok_e, "C07.R2", "hugr.tys.ExtType.type_bound: explicit", c.module.path, m.lineno,
-              "for a definition with an explicit bound the type reports exactly that bound", m,
-              expected=show(exp_explicit), found=show(arms.get("ExplicitBound", ("?",))[0]) if "ExplicitBound" in arms else "<no arm>")
-    got_p = arms.get("FromParamsBound", (None, None))[0]
+              "for a definition with an explicit bound the type reports exactly that bound" + (f" [a path outside the two kinds of definition answers: {stray[:160]}]" if stray else ""), m,
+              expected=show(exp_explicit), found=show(arms["ExplicitBound"]) if "ExplicitBound" in arms else "<no arm>")
+    got_p = arms.get("FromParamsBound")
     ctx.check(got_p == want_params, "C07.R2", "hugr.tys.ExtType.type_bound: from parameters", c.module.path, m.lineno,
               "for a from-parameters definition the bound is the join of the bounds of the type arguments at exactly the named indices", m,
               expected=show(want_params), found=show(got_p) if got_p else "<no arm>", detail=show(got_p)[:200] if got_p else "")
@@ -261,7 +270,9 @@ def r4_written_bound(ctx, nf) -> None:
     t, _ = nf.method_nf(c, "_to_opaque")
     s = sym("self")
     a = ctor_args(t) if t[0] == "ctor" else {}
-    ok = a.get("bound") == ("call", ".type_bound", (s,), ())
+    # (type_bound is seen through when its body is evaluable: the expectation is computed the same way)
+    want_b = nf.expr_nf("self.type_bound()", c)[0]
+    ok = a.get("bound") == want_b
     ctx.check(ok, "C07.R4", "hugr.tys.ExtType._to_opaque: bound", c.module.path, m.lineno,
               "the bound written into the opaque form must be the computed self.type_bound()", m, expected="self.type_bound()", found=show(a.get("bound")) if a else show(t))
     ok2 = a.get("args") == attr(s, "args") and a.get("id") == attr(attr(s, "type_def"), "name") and a.get("extension") == attr(attr(attr(s, "type_def"), "_extension"), "name")
@@ -269,7 +280,7 @@ def r4_written_bound(ctx, nf) -> None:
               "the opaque form names the definition's extension and type id and carries the arguments", m, found=show(t)[:300])
     k, ser = c.find_method("_to_serial")
     t2, _ = nf.method_nf(c, "_to_serial")
-    ctx.check(t2[0] == "ctor" and t2[1].endswith("Opaque") and ctor_args(t2).get("bound") == ("call", ".type_bound", (s,), ()), "C07.R4",
+    ctx.check(t2[0] == "ctor" and t2[1].endswith("Opaque") and ctor_args(t2).get("bound") == want_b, "C07.R4",
               "hugr.tys.ExtType._to_serial", c.module.path, ser.lineno, "ExtType must serialize through its opaque form", ser, found=show(t2)[:200])
 
 
